@@ -649,6 +649,14 @@ def driveC03 (args : List String) : String :=
       | some v => showBytes (natsToBytes v)
       | none => "error"
     | none => "bad-op"
+  | ["b64rawenc", h] => match hexArg (if h == "-" then "" else h) with
+    | some b => showBytes (natsToBytes (Metadata.b64rawenc (bytesToNats b)))
+    | none => "bad-op"
+  | ["b64rawdec", h] => match hexArg (if h == "-" then "" else h) with
+    | some b => match Metadata.b64rawdec (bytesToNats b) with
+      | some v => showBytes (natsToBytes v)
+      | none => "error"
+    | none => "bad-op"
   | _ => "bad-op"
 
 
